@@ -93,4 +93,43 @@ pub open spec fn old_has_hook(s: Raw, ns: Seq<char>, a: Seq<char>) -> bool {
     exists|i: int| 0 <= i < hooks_of(s, ns).len() && #[trigger] hooks_of(s, ns)[i]@ == a
 }
 
+
+// ---- claim.rs (ASSUMED contracts; source cw-controllers-2.0.0/src/claim.rs)
+pub struct Claim { pub amount: Uint128, pub release_at: Expiration }
+pub struct ClaimsResponse { pub claims: Vec<Claim> }
+pub uninterp spec fn ser_claims(c: Seq<Claim>) -> Seq<u8>;
+pub uninterp spec fn de_claims(b: Seq<u8>) -> Option<Seq<Claim>>;
+pub broadcast axiom fn ax_ser_claims(c: Seq<Claim>) ensures de_claims(#[trigger] ser_claims(c)) == Some(c);
+pub open spec fn claims_key(ns: Seq<char>, a: Seq<char>) -> Seq<u8> { path(ns, utf8(a)) }
+pub open spec fn claims_of(s: Raw, ns: Seq<char>, a: Seq<char>) -> Seq<Claim> {
+    if s.contains_key(claims_key(ns, a)) { match de_claims(s[claims_key(ns, a)]) { Some(c) => c, None => Seq::<Claim>::empty() } } else { Seq::<Claim>::empty() }
+}
+pub open spec fn claims_total(c: Seq<Claim>) -> nat decreases c.len() {
+    if c.len() == 0 { 0 } else { claims_total(c.drop_last()) + c.last().amount@ }
+}
+/// amount of the claims that have matured at block b / the claims that have not
+pub open spec fn matured_total(c: Seq<Claim>, b: &BlockInfo) -> nat decreases c.len() {
+    if c.len() == 0 { 0 } else { matured_total(c.drop_last(), b) + (if c.last().release_at.expired(b) { c.last().amount@ } else { 0 }) }
+}
+pub open spec fn waiting(c: Seq<Claim>, b: &BlockInfo) -> Seq<Claim> decreases c.len() {
+    if c.len() == 0 { Seq::<Claim>::empty() } else if c.last().release_at.expired(b) { waiting(c.drop_last(), b) } else { waiting(c.drop_last(), b).push(c.last()) }
+}
+pub struct Claims { pub ns: &'static str }
+impl Claims {
+    pub const fn new(ns: &'static str) -> (r: Self) ensures r.ns@ == ns@ { Claims { ns } }
+    #[verifier::external_body]
+    pub fn create_claim(&self, storage: &mut dyn Storage, addr: &Addr, amount: Uint128, release_at: Expiration) -> (r: StdResult<()>)
+        ensures r is Ok ==> final(storage).view() == old(storage).view().insert(claims_key(self.ns@, addr@),
+            ser_claims(claims_of(old(storage).view(), self.ns@, addr@).push(Claim { amount, release_at }))),
+    { unimplemented!() }
+    /// releases every matured claim of `addr` (cap == None); `to_send += amount` panics on overflow (partial)
+    #[verifier::external_body]
+    pub fn claim_tokens(&self, storage: &mut dyn Storage, addr: &Addr, block: &BlockInfo, cap: Option<Uint128>) -> (r: StdResult<Uint128>)
+        requires cap is None
+        ensures r is Ok ==> r->Ok_0@ == matured_total(claims_of(old(storage).view(), self.ns@, addr@), block)
+            && final(storage).view() == old(storage).view().insert(claims_key(self.ns@, addr@),
+                ser_claims(waiting(claims_of(old(storage).view(), self.ns@, addr@), block))),
+    { unimplemented!() }
+}
+
 } // verus!
